@@ -13,6 +13,7 @@ source), decided with specs Database.tla / DatabaseTrace.tla.
 
 Python only executes and records; every verdict is TLC's.
 """
+import collections
 import copy
 import gc
 import json
@@ -282,6 +283,9 @@ class _World:
             return _err(type(e).__name__)
 
 
+_GRAVEYARD = collections.deque(maxlen=8)
+
+
 def execute(parts, kind, history, paths=None):
     """Run one history on the real library; returns the observation record
     (Database.tla PART 3)."""
@@ -302,6 +306,11 @@ def execute(parts, kind, history, paths=None):
                 ob['out'] = w.pickle_round_trip()
             ob['srcn'], ob['srcs'] = w.source_flags()
             steps.append(ob)
+    # the datasets handed out stay alive a little longer than their database
+    # (a user keeping datasets while rebuilding databases in a loop): the next
+    # histories of this process run while they exist, and must not see them
+    for ds, _ms in w.handles.values():
+        _GRAVEYARD.append(ds)
     w.handles.clear()
     return {'bexc': bexc, 'bsrcn': bsrcn, 'bsrcs': bsrcs, 'steps': steps}
 
